@@ -204,6 +204,8 @@ StartsAtSource(a, c)   == a.n > 0 => IF Exact(c) THEN LIsZero(a.dev0) ELSE LNear
 (*  r.n       frames of the result, r.rows its frames as rows of integers, *)
 (*  r.rec_rows  the rows of load_recording of the same file (clip),        *)
 (*  r.bs, r.bd  boundary flags of start*sr and (end-start)*sr (see AccInts),*)
+(*  r.fo, r.fn  floor of the same two products as rounded in double         *)
+(*            arithmetic (only used by Drift/ClipFloatFloor),              *)
 (*  r.src_ok, r.src_n  source array loaded / its length (resamp, spec),    *)
 (*  r.axes    <<time>> or <<time, frequency>> (spec); <<>> when raised.    *)
 (*  r.reobs   re-observations, made after the last call of the case, of    *)
@@ -234,7 +236,10 @@ ClipSameAt(o, off) ==
 SourceClauses == {"SourceUntouched/TimeIncreasing", "SourceUntouched/TimeStart", "SourceUntouched/TimeWithinStep",
                   "FirstResult/TimeIncreasing", "FirstResult/TimeStart", "FirstResult/TimeWithinStep"}
 Reobs(r, role) == {x \in DOMAIN r.reobs : r.reobs[x].role = role}
-DriftClauses == {"Drift/SpecShape", "Drift/ResampleNum"}
+\* Drift/ClipFloatFloor: the offset / length are the floors of the products as the implementation rounds them in double
+\* arithmetic (r.fo, r.fn).  Inside the boundary guard the property accepts both neighbours, so another rounding of the
+\* same real formula is drift, not a violation.
+DriftClauses == {"Drift/SpecShape", "Drift/ResampleNum", "Drift/ClipFloatFloor"}
 Clauses == {"Produced", "RecFrames",
             "ClipLength", "ClipFrames", "ClipTimes", "ClipSameAsRecording", "ClipConsistent", "Drift/RecTimes",
             "TimeIncreasing", "TimeStart", "TimeWithinStep",
@@ -298,6 +303,11 @@ Holds(cl, o) ==
             (c.kind = "spec" /\ Exact(c) /\ r.src_ok /\ r.src_n >= 1) =>
                IF ImplSpecRaises(c, r.src_n) THEN ~ok
                ELSE ok /\ Len(r.axes) = 2 /\ r.axes[1].n = ImplFrames(c, r.src_n) /\ r.axes[2].n = ImplBins(c, r.src_n)
+      [] cl = "Drift/ClipFloatFloor" ->
+            /\ isclip => r.n = r.fn /\ ClipFramesAt(o, r.fo) /\ ClipTimesAt(o, r.fo)
+            /\ lclip => /\ r.n = r.fn
+                        /\ LongSamplesAt(c, r.red, r.fo)
+                        /\ \A x \in DOMAIN r.red.samples : r.red.samples[x][3] = LongVal(r.fo + r.red.samples[x][1], c.N)
       [] cl = "Drift/ResampleNum" ->
             (c.kind = "resamp" /\ ExactCo(c) /\ r.src_ok /\ r.src_n >= 2) =>
                IF ImplNum(c, r.src_n) < 1 THEN ~ok ELSE ok /\ r.n = ImplNum(c, r.src_n)
